@@ -14,7 +14,7 @@
 #include <unistd.h>
 #include "usim.h"
 
-#define MAXT		32
+#define MAXT		64
 #define SB_MAX		8
 #define MAXKEYS		16
 #define MAXSIGPLAN	8
@@ -67,7 +67,9 @@ struct sthr {
 	int sigdepth;
 	int cpu;
 	int in_op;
+	int allow_create_fail;
 	char name[32];
+	char opdesc[48];
 };
 
 enum run_status { RS_OK = 0, RS_VIOLATION = 1, RS_INCONCLUSIVE = 2, RS_BUG = 3 };
@@ -119,7 +121,7 @@ struct gstate {
 	/* solo */
 	int solo_tid;
 	/* quiet */
-	int quiet, quiet_expect, quiet_votes;
+	int quiet, quiet_expect, quiet_votes, quiet_forced;
 	uint64_t quiet_start_step, quiet_start_now, quiet_steps, quiet_ns;
 	uint64_t quiet_used_steps;
 	/* log */
